@@ -426,6 +426,33 @@ func (o *trafficOracle) checkVoid(s *Sim, w *Write) {
 			s.Violate("C04", "V1-canary-service", "V1/missing/"+fam, w.Seq, "after %s %s by %s the gateway sends share=%d match=%v to canary Service %s which does not exist", w.Verb, w.Key, w.Actor, cur.Share, cur.Match, o.canarySvc)
 		case cs.Spec.Selector[revKey] == "":
 			s.Violate("C04", "V1-canary-service", "V1/unselective/"+fam, w.Seq, "after %s %s by %s the gateway sends traffic to the canary Service but it selects no revision", w.Verb, w.Key, w.Actor)
+		default:
+			// the canary Service must select the new revision: at least one live pod carries every selector label
+			if s.Cfg.PodKill == 0 {
+				match := 0
+				for _, k := range s.Store.keys {
+					if k.GK != gkPod || k.NS != o.sc.NS {
+						continue
+					}
+					p := s.Store.objs[k].(*corev1.Pod)
+					if p.DeletionTimestamp != nil {
+						continue
+					}
+					ok := true
+					for lk, lv := range cs.Spec.Selector {
+						if p.Labels[lk] != lv {
+							ok = false
+							break
+						}
+					}
+					if ok {
+						match++
+					}
+				}
+				if match == 0 {
+					s.Violate("C04", "V1-canary-service", "V1/no-endpoints/"+fam, w.Seq, "after %s %s by %s the gateway sends share=%d match=%v to the canary Service whose selector %v matches no pod", w.Verb, w.Key, w.Actor, cur.Share, cur.Match, cs.Spec.Selector)
+				}
+			}
 		}
 	}
 	if ss != nil && ss.Spec.Selector[revKey] != "" && cur.Share < 100 {
